@@ -11,7 +11,7 @@ any-errors flag on all paths.  The collected data must be normalised
 a file written by one run need not equal the next run's (shares C05 R5.3).
 Not decided: behaviour of serde_json/toml themselves."""
 from ..mir import callee_of, origin_calls, show_origin
-from ..thir import Evaluator, TB
+from ..thir import Evaluator, TB, Agg, Sym, Unsupported
 from ..facts import where
 
 EXPLANATION = __doc__
@@ -227,29 +227,36 @@ def run(ctx, rep):
     if cr in f.fns:
         # run() with the free helper functions of its module inlined (the file loading may live in an extracted helper)
         from ..mir import Body, inline_fn
-        b = Body(inline_fn(f, cr, lambda c: c.startswith("fastpasta::controller::") and "Controller::<C>::" not in c, max_depth=3, max_blocks=3000))
+        b = Body(inline_fn(f, cr, lambda c: c.startswith("fastpasta::controller::") and "{closure" not in c, max_depth=3, max_blocks=6000))
         des = [(t, cal, c) for bb, t, cal, c in b.calls() if cal in ("serde_json::de::from_str", "toml::de::from_str")]
         ok = len(des) == 2 and all(any(g.get("adt") == ROOT for g in (c.get("ga") or [])) for t, cal, c in des)
         rep.check(ok, "R15.2", "R15.2|read_root", "the input statistics file is deserialised into StatsCollector in both formats", cr,
                   "deserialisation targets: %s" % [[g.get("s") for g in (c.get("ga") or [])] for t, cal, c in des])
 
         # ---------- R15.3 mismatch ⇒ status
-        vcalls = [(bb, t) for bb, t, cal, c in b.calls() if cal == ROOT + "::validate_other_stats"]
-        stores = [(bb, t) for bb, t, cal, c in b.calls() if cal == "core::sync::atomic::Atomic::<bool>::store"]
-        ok = False
-        if len(vcalls) == 1:
-            vb = vcalls[0][0]
-            # the block after is_err() switch: true edge must pass a store(true) to any_errors_flag on all paths to return
-            for x in b.live_blocks():
-                tt = b.blocks[x]["t"]
-                if tt["k"] == "switch":
-                    o = b.origin(tt["d"])
-                    if o[0] == "call" and o[1] and o[1].endswith("Result::<T, E>::is_err") and any(c_[3] == vb for c_ in origin_calls(o)):
-                        true_t = tt["else"]
-                        st_true = [sb for sb, st in stores if "any_errors_flag" in show_origin(b.origin(st["args"][0])) and st["args"][1].get("c", {}).get("int") == 1]
-                        ok = bool(st_true) and b.all_paths_pass(true_t, st_true)
+        # decided per outcome of the comparison (run() and the controller's helpers evaluated with validate_other_stats
+        # replaced by Ok / Err): the only difference is one store of `true` into the any-errors flag
+        ev = Evaluator(f)
+        evs = {}
+        for outcome in ("Ok", "Err"):
+            ev.call_hooks = [(lambda fn_, r_: (r_ or fn_).endswith("::validate_other_stats"),
+                              lambda n, a, outcome=outcome: Agg("core::result::Result", outcome, {"0": () if outcome == "Ok" else Sym("MISMATCH")}))]
+            ev.watch = lambda c: c.endswith("::store")
+            try:
+                out = ev.collect_ifs(cr, [Sym("self")], follow=lambda c: c.startswith("fastpasta::controller::"))
+                evs[outcome] = [(tuple(o["args"]), tuple(g for g in o["guard"] if g not in ("true", "not false"))) for o in out
+                                if "call" in o and not any(g in ("false", "not true") for g in o["guard"])]
+            except Unsupported as e:
+                evs[outcome] = [(("unevaluable: %s" % e,), ())]
+            finally:
+                ev.call_hooks = []
+                ev.watch = None
+        extra = [e for e in evs["Err"] if e not in evs["Ok"]]
+        lost = [e for e in evs["Ok"] if e not in evs["Err"]]
+        ok = len(extra) == 1 and not lost and "self.any_errors_flag" in extra[0][0][0] and extra[0][0][1] == "true" \
+            and all("input_stats_file" in g and g.startswith("symc(isSome(") for g in extra[0][1])
         rep.check(ok, "R15.3", "R15.3|mismatch_sets_flag", "a statistics mismatch stores true into the any-errors flag on every path", cr,
-                  "the Err result of validate_other_stats does not always set the any-errors flag")
+                  "the Err result of validate_other_stats does not always set the any-errors flag (stores only after Err: %s; only after Ok: %s)" % ([(e[0][:2], [g[:60] for g in e[1]]) for e in extra], [(e[0][:2]) for e in lost]))
         # validation compares *finalised* data: finalize (sorting) must precede write_stats and validate_other_stats on every path
         from . import c05
         c05.normalisation_rules(ctx, rep)
